@@ -11,6 +11,9 @@ C. code->spec: random streams (late, duplicate, out-of-order, very old, future t
    random tick interleavings, MAX_AGGREGATION_INTERVALS / WRITE_BACK_FREQUENCY / FORWARD_ALL /
    name cache varied; Aggregator_Trace.tla re-synchronises on the observed buffers and judges the
    observed emissions (values 4^id under 'sum' make the aggregated ids decodable).
+E. the whole processing pipeline as carbon.service.setupPipeline installs it (rewrite:pre, aggregate,
+   rewrite:post, relay / write; generated datapoints): Pipeline.tla - closed-form promises checked by TLC
+   against the recursive run_pipeline, recorded cases of the real pipeline judged by the same module.
 D. the rule pattern language: generated rules x names that hit and narrowly miss, judged by
    Aggregator_Trace!MatchFlags; numeric aggregation methods against exact references.
 """
@@ -172,6 +175,44 @@ def run(ctx):
   ctx.evaluations += ctx.pick(300, 5000)
   for b in bad[:5]:
     ctx.violation(WHAT['numeric'], dict(method=b[0], values=b[1], got=b[2], expected=b[3]), signature='numeric')
+  pipeline_section(ctx)
+
+
+def pipeline_section(ctx):
+  """E. the daemon's processing pipeline as carbon.service.setupPipeline builds it (Pipeline.tla): what a received
+  datapoint feeds and where it is delivered, through the real rewrite / aggregate / relay / write processors."""
+  from . import pipesys
+  pipesys.model(ctx)
+  pe = pipesys.PipeEnv(ctx.scratch)
+  recs = pipesys.gen_cases(ctx, pe, ctx.rng, ctx.pick(60, 500))
+  flags = pipesys.judge(ctx, recs)
+  nagg = 0
+  for rec, fl in zip(recs, flags):
+    ctx.traces += 1
+    aggd = 'aggregate' in rec['stages']
+    if aggd and rec['gen'] == 0:
+      nagg += 1
+      ctx.nontriv(('pipeline', ctx.traces))
+    if rec['altered']:
+      fl = fl | {'forward-altered'}
+    for f in sorted(fl):
+      if aggd and f == 'delivered':
+        ctx.violation(WHAT['forward'] + ' [observed at the end of the daemon\'s pipeline]', rec['text'], signature='forward')
+      elif aggd and f == 'forward-altered':
+        ctx.violation(WHAT['forward-altered'] + ' [observed at the end of the daemon\'s pipeline]', rec['text'], signature='forward-altered')
+      elif aggd and f == 'aggregates-fed':
+        ctx.violation('a received datapoint did not feed exactly the aggregates the rules derive from its (pre-rewritten) name', rec['text'],
+                      signature='aggregates-fed')
+      else:
+        ctx.note_drift('pipeline (%s): %s differs from Pipeline.tla: %s' % (rec['text'].get('daemon'), f, {k: v for k, v in rec['text'].items() if k != 'daemon'}))
+  ctx.cov['pipeline_cases'] = len(recs)
+  ctx.cov['pipeline_cases_through_aggregator'] = nagg
+  import copy
+  good = next((r for r, fl in zip(recs, flags) if not fl and r['sink'] and r['gen'] == 0), None)
+  if good is not None:
+    bad = copy.deepcopy(good)
+    bad['sink'] = bad['sink'] + bad['sink']
+    ctx.negative_control('pipeline: a delivery duplicated in a recorded case', 'delivered' in pipesys.judge(ctx, [bad])[0])
 
 
 def replay(ctx, rp):
